@@ -135,12 +135,24 @@ structure BoundedP (inp : RunInput) (n : Nat) : Prop where
   rt : ∀ t, t < n → ∀ d ∈ (inp.calcRes t).tasks, d < n
   rf : ∀ t, t < n → ∀ d ∈ (inp.calcRes t).files, d < n
   rc : ∀ t, t < n → ∀ d ∈ (inp.calcRes t).calcs, d < n
+  ft : ∀ t, t < n → ∀ d ∈ (inp.calcResFail t).tasks, d < n
+  ff : ∀ t, t < n → ∀ d ∈ (inp.calcResFail t).files, d < n
+  fc : ∀ t, t < n → ∀ d ∈ (inp.calcResFail t).calcs, d < n
+  na : ∀ t, t < n → inp.noAct t = true →
+    (inp.calcResFail t).tasks = [] ∧ (inp.calcResFail t).files = [] ∧ (inp.calcResFail t).calcs = []
 
 theorem Bounded.p {inp : RunInput} {n : Nat} (h : Bounded inp n) : BoundedP inp n := by
   unfold Bounded boundedB at h
-  simp only [Bool.and_eq_true, List.all_eq_true, List.mem_range, decide_eq_true_eq] at h
-  exact ⟨h.1, fun t ht => (h.2 t ht).1.1.1.1.1, fun t ht => (h.2 t ht).1.1.1.1.2, fun t ht => (h.2 t ht).1.1.1.2,
-    fun t ht => (h.2 t ht).1.1.2, fun t ht => (h.2 t ht).1.2, fun t ht => (h.2 t ht).2⟩
+  simp only [Bool.and_eq_true, List.all_eq_true, List.mem_range, decide_eq_true_eq, Bool.or_eq_true,
+    Bool.not_eq_true', List.isEmpty_iff] at h
+  refine ⟨h.1, fun t ht => (h.2 t ht).1.1.1.1.1.1.1.1.1, fun t ht => (h.2 t ht).1.1.1.1.1.1.1.1.2,
+    fun t ht => (h.2 t ht).1.1.1.1.1.1.1.2, fun t ht => (h.2 t ht).1.1.1.1.1.1.2, fun t ht => (h.2 t ht).1.1.1.1.1.2,
+    fun t ht => (h.2 t ht).1.1.1.1.2, fun t ht => (h.2 t ht).1.1.1.2, fun t ht => (h.2 t ht).1.1.2,
+    fun t ht => (h.2 t ht).1.2, ?_⟩
+  intro t ht hna
+  rcases (h.2 t ht).2 with a | a
+  · rw [hna] at a; cases a
+  · exact ⟨a.1.1, a.1.2, a.2⟩
 
 def roundC (inp : RunInput) (pre : List Ev) (cs : List Name) : List Name :=
   addNew cs ((cs.filter (finishedIn pre)).flatMap fun c => (inp.calcRes c).calcs)
@@ -182,6 +194,64 @@ theorem calcsAt_bnd {inp : RunInput} {n : Nat} (hb : BoundedP inp n) (pre : List
     (hcs : ∀ x ∈ cs, x < n) : ∀ x ∈ calcsAt inp pre k cs, x < n := by
   rw [calcsAt_iter]; exact iterF_bnd (roundC_round hb pre) k cs hcs
 
+/-- what a calc task delivers according to the trace is one of its two oracle values, or nothing -/
+theorem resAt_cases (inp : RunInput) (tr : List Ev) (c : Name) :
+    resAt inp tr c = inp.calcRes c ∨ resAt inp tr c = inp.calcResFail c ∨ resAt inp tr c = {} := by
+  unfold resAt; split
+  · exact Or.inl rfl
+  · split
+    · exact Or.inr (Or.inl rfl)
+    · exact Or.inr (Or.inr rfl)
+
+theorem resAt_bnd {inp : RunInput} {n : Nat} (hb : BoundedP inp n) (tr : List Ev) {c : Name} (hc : c < n) :
+    (∀ x ∈ (resAt inp tr c).calcs, x < n) ∧ (∀ x ∈ (resAt inp tr c).tasks, x < n) ∧
+    (∀ x ∈ (resAt inp tr c).files, x < n) := by
+  rcases resAt_cases inp tr c with e | e | e <;> rw [e]
+  · exact ⟨hb.rc c hc, hb.rt c hc, hb.rf c hc⟩
+  · exact ⟨hb.fc c hc, hb.ft c hc, hb.ff c hc⟩
+  · exact ⟨fun x hx => (by simp at hx), fun x hx => (by simp at hx), fun x hx => (by simp at hx)⟩
+
+def roundCF (inp : RunInput) (pre : List Ev) (cs : List Name) : List Name :=
+  addNew cs (cs.flatMap fun c => (resAt inp pre c).calcs)
+
+theorem calcsAtF_iter (inp : RunInput) (pre : List Ev) : ∀ k cs,
+    calcsAtF inp pre k cs = iterF (roundCF inp pre) k cs := by
+  intro k; induction k with
+  | zero => intro cs; rfl
+  | succ k ih => intro cs; simp only [calcsAtF, iterF, roundCF, ih]
+
+theorem roundCF_round {inp : RunInput} {n : Nat} (hb : BoundedP inp n) (pre : List Ev) : Round n (roundCF inp pre) := by
+  refine ⟨?_, ?_, ?_⟩
+  · intro cl x hx; exact (mem_addNew _ _).mpr (Or.inl hx)
+  · intro cl h
+    exact addNew_eq_self _ _ (fun x hx => h x ((mem_addNew _ _).mpr (Or.inr hx)))
+  · intro cl h x hx
+    rcases (mem_addNew _ _).mp hx with a | a
+    · exact h x a
+    · simp only [List.mem_flatMap] at a
+      obtain ⟨c, hc, hxc⟩ := a
+      exact (resAt_bnd hb pre (h c hc)).1 x hxc
+
+theorem calcsAtF_ext (inp : RunInput) (pre : List Ev) : ∀ k cs x, x ∈ cs → x ∈ calcsAtF inp pre k cs := by
+  intro k; induction k with
+  | zero => intro cs x h; exact h
+  | succ k ih => intro cs x h; simp only [calcsAtF]; exact ih _ x ((mem_addNew _ _).mpr (Or.inl h))
+
+/-- with bounded names the fuel `n` closes `calcsAtF` under the deliveries of its members -/
+theorem calcsAtF_closed {inp : RunInput} {n : Nat} (hb : BoundedP inp n) (pre : List Ev) {cs : List Name}
+    (hcs : ∀ x ∈ cs, x < n) {c x : Name} (hc : c ∈ calcsAtF inp pre n cs)
+    (hx : x ∈ (resAt inp pre c).calcs) : x ∈ calcsAtF inp pre n cs := by
+  rw [calcsAtF_iter] at hc ⊢
+  apply iterF_closed (roundCF_round hb pre) (Nat.le_refl n) hcs
+  unfold roundCF
+  refine (mem_addNew _ _).mpr (Or.inr ?_)
+  simp only [List.mem_flatMap]
+  exact ⟨c, hc, hx⟩
+
+theorem calcsAtF_bnd {inp : RunInput} {n : Nat} (hb : BoundedP inp n) (pre : List Ev) (k : Nat) {cs : List Name}
+    (hcs : ∀ x ∈ cs, x < n) : ∀ x ∈ calcsAtF inp pre k cs, x < n := by
+  rw [calcsAtF_iter]; exact iterF_bnd (roundCF_round hb pre) k cs hcs
+
 /-! ### the successors of a task in the laziness closure -/
 
 def setupOK (inp : RunInput) (nTasks : Nat) (tr : List Ev) (t d : Name) : Bool :=
@@ -190,9 +260,9 @@ def setupOK (inp : RunInput) (nTasks : Nat) (tr : List Ev) (t d : Name) : Bool :
   | none => runPending inp nTasks tr t
 
 def succs (inp : RunInput) (nTasks : Nat) (tr : List Ev) (t : Name) : List Name :=
-  inp.taskDep t ++ calcsAt inp tr nTasks (inp.calcDep t) ++
-    (((calcsAt inp tr nTasks (inp.calcDep t)).filter (finishedIn tr)).flatMap fun c =>
-      (inp.calcRes c).tasks ++ (inp.calcRes c).files) ++
+  inp.taskDep t ++ calcsAtF inp tr nTasks (inp.calcDep t) ++
+    ((calcsAtF inp tr nTasks (inp.calcDep t)).flatMap fun c =>
+      (resAt inp tr c).tasks ++ (resAt inp tr c).files) ++
     ((inp.setup t).filter fun d => setupOK inp nTasks tr t d)
 
 theorem lazyOnce_eq (inp : RunInput) (nTasks : Nat) (tr : List Ev) (cl : List Name) :
@@ -234,13 +304,13 @@ theorem mem_lazyOnce {inp : RunInput} {nTasks : Nat} {tr : List Ev} {cl : List N
 theorem succs_bnd {inp : RunInput} {n : Nat} (hb : BoundedP inp n) (tr : List Ev) {t : Name} (ht : t < n) :
     ∀ x ∈ succs inp n tr t, x < n := by
   intro x hx
-  have hc := calcsAt_bnd hb tr n (hb.cd t ht)
+  have hc := calcsAtF_bnd hb tr n (hb.cd t ht)
   simp only [succs, List.mem_append, List.mem_flatMap, List.mem_filter] at hx
-  rcases hx with ((a | a) | ⟨c, ⟨hcc, _⟩, a | a⟩) | ⟨a, _⟩
+  rcases hx with ((a | a) | ⟨c, hcc, a | a⟩) | ⟨a, _⟩
   · exact hb.td t ht x a
   · exact hc x a
-  · exact hb.rt c (hc c hcc) x a
-  · exact hb.rf c (hc c hcc) x a
+  · exact (resAt_bnd hb tr (hc c hcc)).2.1 x a
+  · exact (resAt_bnd hb tr (hc c hcc)).2.2 x a
   · exact hb.su t ht x a
 
 theorem lazyOnce_round {inp : RunInput} {n : Nat} (hb : BoundedP inp n) (tr : List Ev) :
